@@ -691,3 +691,277 @@ Proof.
     rewrite vadd_vsub in B1 by lia. rewrite vadd_vsub_swap in B2 by lia.
     apply inb_iff in B1, B2. rewrite B1, B2. reflexivity.
 Qed.
+
+
+(* ------------------------------------ the premises hold for embedded content *)
+(* the content box [off, off + csh) keeps distance m (>= 0) from both ends of every axis *)
+Fixpoint fitsb (sh off csh m : list Z) : bool :=
+  match sh, off, csh, m with
+  | [], [], [], [] => true
+  | n :: sh', o :: off', c :: csh', k :: m' => (0 <=? k) && (k <=? o) && (o + c <=? n - k) && fitsb sh' off' csh' m'
+  | _, _, _, _ => false
+  end.
+
+Lemma fitsb_spec : forall sh off csh m c, fitsb sh off csh m = true -> in_bounds csh c ->
+  in_bounds sh (vadd c off) /\ outside_margin sh m (vadd c off).
+Proof.
+  unfold in_bounds, outside_margin.
+  induction sh as [|n sh IH]; intros [|o off] [|cs csh] [|k m] c H Hc; cbn in H; try discriminate.
+  - inversion Hc; subst. cbn. split; constructor.
+  - apply andb_prop in H. destruct H as [H F4]. apply andb_prop in H. destruct H as [H F3].
+    apply andb_prop in H. destruct H as [F1 F2]. apply Z.leb_le in F1, F2, F3.
+    inversion Hc as [|? y ? c' Hy Hc']; subst.
+    destruct (IH off csh m c' F4 Hc') as [A B]. cbn. split; constructor; try lia; assumption.
+Qed.
+
+Lemma fitsb_length : forall sh off csh m, fitsb sh off csh m = true ->
+  length off = length sh /\ length csh = length sh /\ length m = length sh.
+Proof.
+  induction sh as [|n sh IH]; intros [|o off] [|cs csh] [|k m] H; cbn in H; try discriminate; [cbn; auto|].
+  apply andb_prop in H. destruct H as [_ H]. destruct (IH _ _ _ H) as [A [B C]]. cbn. lia.
+Qed.
+
+Lemma vadd_vadd_vsub : forall c a b, length c = length a -> length b = length a ->
+  vadd (vadd c a) (vsub b a) = vadd c b.
+Proof.
+  induction c as [|x c IH]; intros [|y a] [|z b] H1 H2; cbn in *; try discriminate; auto.
+  f_equal; [lia|apply IH; lia].
+Qed.
+
+Lemma ix_map_add : forall (l : list Z) k j, (j < length l)%nat -> ix (map (fun r => r + k) l) j = ix l j + k.
+Proof.
+  unfold ix. intros. rewrite (nth_indep _ 0 (0 + k)) by (rewrite map_length; lia).
+  rewrite (map_nth (fun r => r + k)). reflexivity.
+Qed.
+
+Lemma outside_margin_ix : forall sh m p, outside_margin sh m p ->
+  forall j, (j < length m)%nat -> ix m j <= ix p j <= ix sh j - ix m j - 1.
+Proof.
+  unfold outside_margin, ix. intros sh m p H. induction H; intros j Hj; cbn in Hj; [lia|].
+  destruct j; cbn; [lia|]. apply IHForall3. lia.
+Qed.
+
+Lemma embed_support : forall sh off content p,
+  length off = length sh -> (forall c, pix content c <> 0 -> in_bounds (shape content) c) ->
+  pix (embed sh off content) p <> 0 ->
+  exists c, p = vadd c off /\ in_bounds (shape content) c /\ pix content c <> 0.
+Proof.
+  intros sh off content p L Hw Hp. rewrite pix_embed in Hp.
+  destruct (inb sh p) eqn:E; [|congruence]. apply inb_iff, in_bounds_length in E.
+  exists (vsub p off). split; [symmetry; apply vadd_vsub; lia|]. split; [apply Hw|]; exact Hp.
+Qed.
+
+Theorem embed_content_inside : forall sh off content mg,
+  length off = length sh -> (forall c, pix content c <> 0 -> in_bounds (shape content) c) ->
+  fitsb sh off (shape content) mg = true ->
+  content_inside mg (embed sh off content).
+Proof.
+  intros sh off content mg L Hw Hf p Hp.
+  destruct (embed_support sh off content p L Hw Hp) as [c [-> [Hc _]]].
+  cbn [embed shape]. apply (fitsb_spec sh off (shape content) mg c Hf Hc).
+Qed.
+
+Theorem embed_has_room : forall P content sh1 off1 sh2 off2,
+  length off1 = length sh1 -> length off2 = length sh1 -> length sh2 = length sh1 ->
+  (forall c, pix content c <> 0 -> in_bounds (shape content) c) ->
+  let m := map (fun r => r + Z.of_nat (pred (iters_of (lp_maxit P)))) (lp_radius P) in
+  fitsb sh1 off1 (shape content) m = true -> fitsb sh2 off2 (shape content) m = true ->
+  content_has_room P (vsub off2 off1) (embed sh1 off1 content) (embed sh2 off2 content).
+Proof.
+  intros P content sh1 off1 sh2 off2 L1 L2 L3 Hw m F1 F2 p Hp.
+  destruct (embed_support sh1 off1 content p L1 Hw Hp) as [c [-> [Hc _]]].
+  pose proof (in_bounds_length _ _ Hc) as Lc.
+  destruct (fitsb_spec _ _ _ _ c F1 Hc) as [B1 O1]. destruct (fitsb_spec _ _ _ _ c F2 Hc) as [B2 O2].
+  destruct (fitsb_length _ _ _ _ F1) as [_ [Lcs _]].
+  assert (E : vadd (vadd c off1) (vsub off2 off1) = vadd c off2) by (apply vadd_vadd_vsub; lia).
+  cbn [embed shape]. rewrite E. unfold room. split; intros j Hj.
+  - pose proof (outside_margin_ix _ _ _ O1 j) as H. unfold m in H. rewrite map_length in H. specialize (H Hj).
+    rewrite !ix_map_add in H by exact Hj. lia.
+  - pose proof (outside_margin_ix _ _ _ O2 j) as H. unfold m in H. rewrite map_length in H. specialize (H Hj).
+    rewrite !ix_map_add in H by exact Hj. lia.
+Qed.
+
+(* ---------------------------------------------------- a concrete instance *)
+Definition tab (sh : list Z) (f : list Z -> Z) : image := {| shape := sh; data := arr_of sh f |}.
+
+Lemma tab_wf : forall sh f c, pix (tab sh f) c <> 0 -> in_bounds sh c.
+Proof.
+  intros sh f c H. unfold tab, pix in H. cbn [data] in H. rewrite get_arr_of in H.
+  destruct (inb sh c) eqn:E; [apply inb_iff, E|congruence].
+Qed.
+
+Lemma tab_nonneg : forall sh f, (forall c, 0 <= f c) -> forall c, 0 <= pix (tab sh f) c.
+Proof. intros sh f H c. unfold tab, pix. cbn [data]. rewrite get_arr_of. destruct (inb sh c); [apply H|lia]. Qed.
+
+Lemma embed_nonneg : forall sh off content, (forall c, 0 <= pix content c) -> forall p, 0 <= pix (embed sh off content) p.
+Proof. intros. rewrite pix_embed. destruct (inb sh p); [apply H|lia]. Qed.
+
+(* a 5x5 blob, pasted at (4,5) into a 14x15 canvas and at (7,4) into a 16x14 canvas *)
+Definition ex_blob (c : list Z) : Z :=
+  Z.max 0 (9 - 2 * ((ix c 0 - 2) * (ix c 0 - 2) + (ix c 1 - 2) * (ix c 1 - 2))).
+Definition ex_content : image := tab [5; 5] ex_blob.
+Definition ex_P : lparams := mkLP [3#1; 3#1]%Q [1; 1] [1; 1] (3 # 5) 3 true.
+Definition ex_im1 : image := embed [14; 15] [4; 5] ex_content.
+Definition ex_im2 : image := embed [16; 14] [7; 4] ex_content.
+Definition ex_d : list Z := vsub [7; 4] [4; 5].
+Definition ex_percentile (l : list Z) : Q := 1 # 2.
+
+Lemma ex_premises :
+  moved ex_d ex_im1 ex_im2 /\
+  length ex_d = length (shape ex_im1) /\
+  length (lp_sep ex_P) = length (shape ex_im1) /\ length (lp_margin ex_P) = length (shape ex_im1) /\
+  length (lp_radius ex_P) = length (shape ex_im1) /\
+  Forall (fun s => 1 <= s) (sizes_of ex_im1 (lp_sep ex_P)) /\
+  (forall p, 0 <= pix ex_im1 p) /\
+  content_inside (lp_margin ex_P) ex_im1 /\ content_inside (lp_margin ex_P) ex_im2 /\
+  content_has_room ex_P ex_d ex_im1 ex_im2.
+Proof.
+  assert (Hw : forall c, pix ex_content c <> 0 -> in_bounds (shape ex_content) c) by (intros c; apply tab_wf).
+  assert (H1 : moved ex_d ex_im1 ex_im2).
+  { apply embed_moved; try reflexivity. intros c Lc Hc. apply Hw in Hc.
+    split; [apply (fitsb_spec [14; 15] [4; 5] [5; 5] [0; 0] c eq_refl Hc)|apply (fitsb_spec [16; 14] [7; 4] [5; 5] [0; 0] c eq_refl Hc)]. }
+  assert (H6 : Forall (fun s => 1 <= s) (sizes_of ex_im1 (lp_sep ex_P))).
+  { assert (E : sizes_of ex_im1 (lp_sep ex_P) = [4; 4]) by (vm_compute; reflexivity).
+    rewrite E. repeat constructor; lia. }
+  assert (H7 : forall p, 0 <= pix ex_im1 p).
+  { apply embed_nonneg, tab_nonneg. intros c. apply Z.le_max_l. }
+  assert (H8 : content_inside (lp_margin ex_P) ex_im1) by (apply embed_content_inside; [reflexivity|exact Hw|reflexivity]).
+  assert (H9 : content_inside (lp_margin ex_P) ex_im2) by (apply embed_content_inside; [reflexivity|exact Hw|reflexivity]).
+  assert (H10 : content_has_room ex_P ex_d ex_im1 ex_im2) by (apply embed_has_room; try reflexivity; exact Hw).
+  exact (conj H1 (conj eq_refl (conj eq_refl (conj eq_refl (conj eq_refl (conj H6 (conj H7 (conj H8 (conj H9 H10))))))))).
+Qed.
+
+(* the instance is not trivial: one feature, found at (6,7) resp. (9,6) *)
+Lemma ex_nontrivial :
+  find_maxima ex_percentile ex_P ex_im1 = [[6; 7]] /\ find_maxima ex_percentile ex_P ex_im2 = [[9; 6]] /\
+  map o_mass (locate_discrete ex_percentile ex_P ex_im1) = [37].
+Proof. vm_compute. repeat split. Qed.
+
+(* ======================================= maxima stage under transposition *)
+Lemma Forall3_app : forall (A B C : Type) (R : A -> B -> C -> Prop) a b c a' b' c',
+  Forall3 R a b c -> Forall3 R a' b' c' -> Forall3 R (a ++ a') (b ++ b') (c ++ c').
+Proof. intros. induction H; cbn; [assumption|constructor; assumption]. Qed.
+
+Lemma Forall3_rev1 : forall (A B C : Type) (R : A -> B -> C -> Prop) a b c,
+  Forall3 R a b c -> Forall3 R (rev a) (rev b) (rev c).
+Proof.
+  intros. induction H; cbn; [constructor|].
+  apply Forall3_app; [assumption|constructor; [assumption|constructor]].
+Qed.
+
+Lemma Forall3_rev : forall (A B C : Type) (R : A -> B -> C -> Prop) a b c,
+  Forall3 R (rev a) (rev b) c <-> Forall3 R a b (rev c).
+Proof.
+  intros. split; intros H; apply Forall3_rev1 in H; rewrite ?rev_involutive in H; exact H.
+Qed.
+
+Lemma Forall2_rev1 : forall (A B : Type) (R : A -> B -> Prop) a b, Forall2 R a b -> Forall2 R (rev a) (rev b).
+Proof.
+  intros. induction H; cbn; [constructor|]. apply Forall2_app; [assumption|constructor; [assumption|constructor]].
+Qed.
+
+Lemma in_bounds_rev : forall sh q, in_bounds (rev sh) q <-> in_bounds sh (rev q).
+Proof.
+  unfold in_bounds. intros. split; intros H; apply Forall2_rev1 in H; rewrite ?rev_involutive in H; exact H.
+Qed.
+
+Section TransposedMaxima.
+  Variable percentile : list Z -> Q.
+  Hypothesis percentile_perm : forall l l', Permutation l l' -> percentile l = percentile l'.
+  Variables (im1 im2 : image) (P : lparams).
+  Hypothesis Ht : transposed im1 im2.
+  Hypothesis Hsep : length (lp_sep P) = length (shape im1).
+  Hypothesis Hmg : length (lp_margin P) = length (shape im1).
+  Hypothesis Hsz : Forall (fun s => 1 <= s) (sizes_of im1 (lp_sep P)).
+
+  Lemma pix2_rev : forall q, pix im2 q = pix im1 (rev q).
+  Proof. intros q. destruct Ht as [_ H]. rewrite <- (rev_involutive q) at 1. apply H. Qed.
+
+  Lemma support_transposed :
+    Permutation (filter (fun p => nzb (pix im2 p)) (coords (shape im2)))
+                (map (@rev Z) (filter (fun p => nzb (pix im1 p)) (coords (shape im1)))).
+  Proof.
+    apply NoDup_Permutation.
+    - apply NoDup_filter, nodup_coords.
+    - apply NoDup_map_inj_in; [|apply NoDup_filter, nodup_coords].
+      intros x y _ _ E. rewrite <- (rev_involutive x), <- (rev_involutive y), E. reflexivity.
+    - intros q. rewrite filter_In, in_map_iff, in_coords. destruct Ht as [Es _]. rewrite Es, in_bounds_rev. split.
+      + intros [Hb Hnz]. exists (rev q). split; [apply rev_involutive|].
+        apply filter_In. rewrite in_coords, <- pix2_rev. split; assumption.
+      + intros [p [<- Hp]]. apply filter_In in Hp. rewrite in_coords in Hp.
+        rewrite rev_involutive, pix2_rev, rev_involutive. exact Hp.
+  Qed.
+
+  Lemma not_black_transposed : Permutation (not_black im2) (not_black im1).
+  Proof.
+    rewrite !not_black_as_map.
+    eapply Permutation_trans; [apply Permutation_map, support_transposed|].
+    rewrite map_map. erewrite map_ext; [apply Permutation_refl|].
+    intros p. cbv beta. rewrite pix2_rev, rev_involutive. reflexivity.
+  Qed.
+
+  Lemma sizes_of_transposed : sizes_of im2 (lp_sep (lp_rev P)) = rev (sizes_of im1 (lp_sep P)).
+  Proof.
+    unfold sizes_of, lp_rev. cbn [lp_sep]. destruct Ht as [Es _]. rewrite Es, rev_length, map_rev. reflexivity.
+  Qed.
+
+  (* (4) the maxima of the transposed image (parameters reversed with the axes) are the
+     transposed maxima *)
+  Theorem maxima_transposed : forall q,
+    In q (find_maxima percentile (lp_rev P) im2) <-> In (rev q) (find_maxima percentile P im1).
+  Proof.
+    intros q. unfold find_maxima.
+    pose proof (maxima_exact percentile false im1 (lp_sep P) (Some (lp_margin P)) (rev q)) as H1.
+    pose proof (maxima_exact percentile false im2 (lp_sep (lp_rev P)) (Some (lp_margin (lp_rev P))) q) as H2.
+    cbv zeta in H1, H2. rewrite convert_to_int_integer in H1, H2. cbn [eff_margin] in H1, H2.
+    destruct Ht as [Es Hp].
+    rewrite H1 by assumption.
+    rewrite H2; [| unfold lp_rev; cbn [lp_sep]; rewrite Es, !rev_length; assumption
+                 | unfold lp_rev; cbn [lp_margin]; rewrite Es, !rev_length; assumption
+                 | rewrite sizes_of_transposed; apply Forall_rev; assumption ].
+    rewrite sizes_of_transposed.
+    assert (Enb : not_black im2 <> [] <-> not_black im1 <> []).
+    { pose proof not_black_transposed as Hperm.
+      split; intros H E; apply H; rewrite E in Hperm.
+      - apply Permutation_nil, Permutation_sym. exact Hperm.
+      - apply Permutation_nil. exact Hperm. }
+    rewrite Enb, (percentile_perm _ _ not_black_transposed).
+    unfold admissible, lp_rev. cbn [lp_margin]. rewrite Es, in_bounds_rev, pix2_rev.
+    unfold outside_margin. rewrite Forall3_rev.
+    assert (Hbox : (forall q', in_box (rev (sizes_of im1 (lp_sep P))) q q' -> pix im2 q' <= pix im1 (rev q)) <->
+                   (forall p', in_box (sizes_of im1 (lp_sep P)) (rev q) p' -> pix im1 p' <= pix im1 (rev q))).
+    { unfold in_box. split.
+      - intros H p' Hp'. rewrite <- (rev_involutive p'), <- pix2_rev. apply H.
+        rewrite <- (rev_involutive q). apply Forall3_rev. rewrite !rev_involutive. exact Hp'.
+      - intros H q' Hq'. rewrite pix2_rev. apply H.
+        rewrite <- (rev_involutive q) in Hq'. apply Forall3_rev in Hq'. exact Hq'. }
+    rewrite Hbox. reflexivity.
+  Qed.
+End TransposedMaxima.
+
+Theorem transpose_transposed : forall im,
+  (forall p, pix im p <> 0 -> in_bounds (shape im) p) -> transposed im (transpose im).
+Proof.
+  intros im Hw. split; [reflexivity|]. intros p. unfold transpose, pix at 1. cbn [data].
+  rewrite get_arr_of, rev_involutive.
+  destruct (inb (rev (shape im)) (rev p)) eqn:E; [reflexivity|].
+  destruct (Z.eq_dec (pix im p) 0) as [E0|E0]; [symmetry; exact E0|].
+  apply Hw in E0.
+  assert (H : in_bounds (rev (shape im)) (rev p)) by (apply in_bounds_rev; rewrite rev_involutive; exact E0).
+  apply inb_iff in H. congruence.
+Qed.
+
+Lemma ex_transposed : transposed ex_im1 (transpose ex_im1) /\
+  find_maxima ex_percentile (lp_rev ex_P) (transpose ex_im1) = [[7; 6]].
+Proof.
+  split; [|vm_compute; reflexivity].
+  apply transpose_transposed. intros p Hp. unfold ex_im1 in *. rewrite pix_embed in Hp. cbn [embed shape].
+  destruct (inb [14; 15] p) eqn:E; [apply inb_iff, E|congruence].
+Qed.
+
+(* batch on three frames (a frame = the number of its features), frame_no on even frames,
+   workers finishing in the order 2, 0, 1 *)
+Lemma ex_batch :
+  batch_imap nat nat (fun n => seq 0 n) (fun n => if Nat.even n then Some (10 + n)%nat else None) [2; 0; 1]%nat false [3; 0; 2]%nat
+  = [(0, 0); (1, 0); (2, 0); (0, 12); (1, 12)]%nat.
+Proof. vm_compute. reflexivity. Qed.
